@@ -55,6 +55,13 @@ type Param struct {
 	Schema   *Schema `json:"schema,omitempty"`
 	// UseContent puts the schema under content: application/json instead of schema.
 	UseContent bool `json:"useContent,omitempty"`
+	Deprecated bool `json:"deprecated,omitempty"`
+}
+
+// Media is one further entry of a content map (next to the ContentType/Schema pair of a Body or Response).
+type Media struct {
+	ContentType string  `json:"contentType"`
+	Schema      *Schema `json:"schema,omitempty"`
 }
 
 type Body struct {
@@ -63,6 +70,7 @@ type Body struct {
 	Schema      *Schema `json:"schema,omitempty"`
 	Required    bool    `json:"required,omitempty"`
 	Desc        string  `json:"desc,omitempty"`
+	Also        []Media `json:"also,omitempty"` // further media types of the content map
 }
 
 type Header struct {
@@ -80,6 +88,7 @@ type Response struct {
 	ContentType string    `json:"contentType,omitempty"`
 	Schema      *Schema   `json:"schema,omitempty"`
 	Headers     []*Header `json:"headers,omitempty"`
+	Also        []Media   `json:"also,omitempty"` // further media types of the content map
 }
 
 type Prop struct {
@@ -279,6 +288,9 @@ func (p *Param) Doc() M {
 	if p.Desc != "" {
 		m["description"] = p.Desc
 	}
+	if p.Deprecated {
+		m["deprecated"] = true
+	}
 	if p.Schema != nil {
 		if p.UseContent {
 			m["content"] = M{"application/json": M{"schema": p.Schema.Doc()}}
@@ -325,7 +337,15 @@ func (b *Body) Doc() M {
 	if b.Schema != nil {
 		mt["schema"] = b.Schema.Doc()
 	}
-	m["content"] = M{ct: mt}
+	cm := M{ct: mt}
+	for _, a := range b.Also {
+		am := M{}
+		if a.Schema != nil {
+			am["schema"] = a.Schema.Doc()
+		}
+		cm[a.ContentType] = am
+	}
+	m["content"] = cm
 	return m
 }
 
@@ -343,7 +363,15 @@ func (r *Response) Doc() M {
 		if r.Schema != nil {
 			mt["schema"] = r.Schema.Doc()
 		}
-		m["content"] = M{ct: mt}
+		cm := M{ct: mt}
+		for _, a := range r.Also {
+			am := M{}
+			if a.Schema != nil {
+				am["schema"] = a.Schema.Doc()
+			}
+			cm[a.ContentType] = am
+		}
+		m["content"] = cm
 	}
 	if len(r.Headers) > 0 {
 		hm := M{}
